@@ -622,6 +622,41 @@ func invokeWithArgCheck(u uhppote.IUHPPOTE, cs api.Case, _ []any) (res api.Resul
 		if string(a) != string(c.Address[:]) || string(m) != string(c.Mask[:]) || string(g) != string(c.Gateway[:]) {
 			return fail("address", c.Address, a)
 		}
+		// ... and in the other forms a net.IP / net.IPMask comes in (whether the call accepts them or not): 16 bytes IPv4-mapped,
+		// the 16-byte mask of an IPv6-notation prefix (twelve 0xff bytes, then the IPv4 mask), 16 arbitrary bytes, nil - each with
+		// spare capacity behind it. The caller's bytes stay what they were.
+		forms := func(b [4]byte, k int) []byte {
+			var x []byte
+			switch k % 5 {
+			case 0:
+				x = append(append([]byte{0, 0, 0, 0, 0, 0, 0, 0, 0, 0, 0xff, 0xff}, b[:]...), 0x5a, 0x5a, 0x5a, 0x5a)[:16]
+			case 1:
+				x = append(append([]byte{0xff, 0xff, 0xff, 0xff, 0xff, 0xff, 0xff, 0xff, 0xff, 0xff, 0xff, 0xff}, b[:]...), 0x5a, 0x5a)[:16]
+			case 2:
+				x = append([]byte{b[0], b[1], b[2], b[3], 9, 8, 7, 6, 5, 4, 3, 2, 1, 0, b[3], b[0]}, 0x5a)[:16]
+			case 3:
+				x = append(append([]byte(nil), b[:]...), 0x5a, 0x5a, 0x5a, 0x5a, 0x5a, 0x5a, 0x5a, 0x5a, 0x5a, 0x5a, 0x5a, 0x5a)[:4]
+			default:
+				return nil
+			}
+			return x
+		}
+		for k := 0; k < 5; k++ {
+			args := [3][]byte{forms(c.Address, k), forms(c.Mask, k+1), forms(c.Gateway, k+2)}
+			var before [3]string
+			for i, x := range args {
+				before[i] = string(x[:cap(x)])
+			}
+			func() {
+				defer func() { recover() }()
+				u.SetAddress(c.Serial, args[0], args[1], args[2])
+			}()
+			for i, x := range args {
+				if string(x[:cap(x)]) != before[i] {
+					return fail([]string{"address", "subnet mask", "gateway"}[i], []byte(before[i]), x[:cap(x)])
+				}
+			}
+		}
 		return api.Result{Err: err, Nil: true}
 	}
 	return api.Invoke(u, cs)
